@@ -655,15 +655,6 @@ func run(c *lib.Ctx) {
 	}
 	c.Eval(len(formats) * len(lists))
 	c.Nontrivial(len(formats) * len(lists))
-	// Doesc: all strings <= 4 (thorough 5) over the escape alphabet
-	ds := strs("\\xnt4aG\"0", lib.Pick(c, 4, 5))
-	dn := 0
-	for _, s := range ds {
-		dn += checkDoesc(c, s)
-	}
-	c.Eval(dn)
-	c.Nontrivial(dn)
-	c.Count("doesc_positions", dn)
 	var cb str.CommaBuilder
 	for _, s := range []string{"a", "", "b,c"} {
 		cb.Add(s)
@@ -682,6 +673,16 @@ func run(c *lib.Ctx) {
 		runTr(c, "abcz-to4", trAlpha, 3, 4, 3)
 		runTr(c, "high", trHigh, 3, 3, 3)
 	}
+	// (last, because its classified known defect stops the run after 5 reports)
+	// Doesc: all strings <= 4 (thorough 5) over the escape alphabet
+	ds := strs("\\xnt4aG\"0", lib.Pick(c, 4, 5))
+	dn := 0
+	for _, s := range ds {
+		dn += checkDoesc(c, s)
+	}
+	c.Eval(dn)
+	c.Nontrivial(dn)
+	c.Count("doesc_positions", dn)
 	c.Sample(map[string]string{"call": `"abcz".Tr("a-c", "xy")`, "result": tr.Replace("abcz", tr.New("a-c"), tr.New("xy")), "reference": refTr("abcz", "a-c", "xy")})
 	c.Sample(map[string]string{"call": `"a-^z".Tr("^a-b", "-")`, "result": tr.Replace("a-^z", tr.New("^a-b"), tr.New("-")), "reference": refTr("a-^z", "^a-b", "-")})
 	c.Sample(map[string]string{"call": `CmpLower("Z", "a")`, "result": fmt.Sprint(str.CmpLower("Z", "a"))})
